@@ -83,6 +83,10 @@ class Env(object):
         self.other = K.new_key('ed25519', name='Other Party', email='other@x.org')
         ua = pgpy.PGPUID.new(bytearray(open('/repo/tests/testdata/simple.jpg', 'rb').read()))
         self.k.add_uid(ua, created=K.ts(K.T0 + 7))
+        # identities whose packets need two- and five-octet lengths
+        for n_, ln in enumerate((191, 192, 300, 9000)):
+            self.k.add_uid(pgpy.PGPUID.new('L%d ' % ln + 'ü' * ((ln - 6) // 2) + 'x' * ((ln - 6) % 2), email=''), created=K.ts(K.T0 + 8 + n_))
+        self.other.add_uid(pgpy.PGPUID.new('Other Long ' + 'y' * 400), created=K.ts(K.T0 + 9))
         self.t = K.T0 + 2000
 
     def now(self):
@@ -218,6 +222,26 @@ def pgpy_side(ctx, blobs, combos):
             e = indep_event(blobs, sig, subj, env, pubcache, '%s %s %s' % (alg, kind, '+'.join(sorted(opts)) or '-'))
             e['alg'], e['kind'], e['opts'] = alg, kind, sorted(opts)
             ev.append(e)
+        # certifications over identities of every packet-length class (self and third party), incl. the stored self-signatures
+        for ui, u in enumerate(env.k.userids):
+            try:
+                with warnings.catch_warnings():
+                    warnings.simplefilter('ignore')
+                    sig = env.k.certify(u, created=env.now())
+                for s_, lab in ((sig, 'new certification'), (u.selfsig, 'stored self-signature')):
+                    e = indep_event(blobs, s_, ('cert', env.k, ui), env, pubcache, '%s uid #%d (%d octets) %s' % (alg, ui, len(uid_octets(u)), lab))
+                    e['alg'], e['kind'], e['opts'] = alg, 'cert-uidlen', ['uidlen=%d' % len(uid_octets(u))]
+                    ev.append(e)
+            except Exception as ex:
+                ctx.note('certify uid #%d refused: %s' % (ui, repr(ex)[:80]))
+        try:
+            lu = [u for u in env.other.userids if len(uid_octets(u)) > 300][0]
+            sig = env.k.certify(lu, created=env.now())
+            e = indep_event(blobs, sig, ('cert', env.other, env.other.userids.index(lu)), env, pubcache, '%s third-party long uid' % alg)
+            e['alg'], e['kind'], e['opts'] = alg, 'cert-uidlen', ['uidlen=%d' % len(uid_octets(lu))]
+            ev.append(e)
+        except Exception as ex:
+            ctx.note('third-party long uid: %s' % repr(ex)[:80])
         # every hash on document, text and certification
         for h in ('MD5', 'SHA1', 'RIPEMD160', 'SHA224', 'SHA256', 'SHA384', 'SHA512'):
             for kind in ('doc', 'text', 'thirdparty'):
@@ -255,7 +279,7 @@ def foreign_side(ctx, blobs):
     for kind in kinds:
         fk = build.ForeignKey(kind)
         sk = build.ForeignKey('ed25519', created=fk.created + 50)
-        uid = ('Foreign %s <f@example.org>' % kind).encode() + ' ünï'.encode('utf-8')
+        uid = ('Foreign %s <f@example.org>' % kind).encode() + ' ünï'.encode('utf-8') + (b' ' + b'z' * {'ed25519': 0, 'rsa2048': 170, 'p256': 300}.get(kind, 9000))
         kblob = build.transferable_key(fk, [uid], subkeys=[(sk, 0x02)])
         with warnings.catch_warnings():
             warnings.simplefilter('ignore')
